@@ -1,11 +1,12 @@
 #!/bin/bash
 # run every registered quick (or thorough) check; print status and wall time per property
 tier=${1:-quick}
-cd /verif
+cd "$(dirname "$0")/.."
+out=${RUNALL_OUT:-/tmp}
 for id in $(python3 -c "import json; print(' '.join(c['property_id'] for c in json.load(open('MANIFEST.json'))['checks']))"); do
   s=$(date +%s.%N)
-  ./check $id --tier $tier > /tmp/verif_runall_$id.log 2>&1
+  ./check $id --tier $tier > $out/verif_runall_$id.log 2>&1
   rc=$?
   e=$(date +%s.%N)
-  printf "%s rc=%d %.1fs %s\n" $id $rc $(echo "$e - $s" | bc) "$(grep -c VIOLATION /tmp/verif_runall_$id.log) violations"
+  printf "%s rc=%d %.1fs %s\n" $id $rc $(echo "$e - $s" | bc) "$(grep -c VIOLATION $out/verif_runall_$id.log) violations"
 done
